@@ -1,4 +1,39 @@
-(* C04 placeholder, replaced below *)
-From RV Require Import Model.Mapping.
-Theorem C04_placeholder : True. Proof. exact I. Qed.
-Eval cbv in "ASSUMPTIONS-OF C04_placeholder"%string. Print Assumptions C04_placeholder.
+(* C04  A reference used as a layer merges like the inline value.  Statements only; proofs in
+   Proofs/RefFacts.v (with StateFacts.v, StateIndep.v, InterpFacts.v) about the ValueList arm of
+   Model/Interp.v. *)
+From RV Require Import Model.Interp Proofs.WfFacts Proofs.InterpFacts Proofs.RefFacts.
+
+(** In a multiply-defined parameter (at any nesting depth: the statement is about an arbitrary
+    ValueList node), a layer x that renders to v merges exactly as if v had been written inline
+    at that position -- with the layers before and after it, whatever they are. *)
+Theorem C04_reference_layer_is_transparent :
+  forall f root st pre x post v s1 v2 s2,
+    wf (VMap root) -> wf x ->
+    interp f root x st = Ok (v, s1) ->
+    interp f root v st = Ok (v2, s2) ->
+    interp (S f) root (VList (pre ++ x :: post)) st = interp (S f) root (VList (pre ++ v :: post)) st.
+Proof. exact layer_reference_transparent. Qed.
+Eval cbv in "ASSUMPTIONS-OF C04_reference_layer_is_transparent"%string. Print Assumptions C04_reference_layer_is_transparent.
+
+(** What a layer renders to is closed data that renders to itself: the inline twin is
+    well-defined. *)
+Theorem C04_inline_twin_renders_to_itself :
+  forall root f v st r st', closed v -> wf v -> interp f root v st = Ok (r, st') -> r = v /\ st' = st.
+Proof. exact interp_closed_ok_id. Qed.
+Eval cbv in "ASSUMPTIONS-OF C04_inline_twin_renders_to_itself"%string. Print Assumptions C04_inline_twin_renders_to_itself.
+
+(** The loop over the layers only uses the value each layer renders to. *)
+Theorem C04_layer_loop_uses_values_only :
+  forall call st pre x post v s1 s2,
+    call x st = Ok (v, s1) -> call v st = Ok (v, s2) -> current_key s1 = current_key s2 ->
+    forall r, vlist_loop call st (pre ++ x :: post) r = vlist_loop call st (pre ++ v :: post) r.
+Proof. exact vlist_loop_transparent. Qed.
+Eval cbv in "ASSUMPTIONS-OF C04_layer_loop_uses_values_only"%string. Print Assumptions C04_layer_loop_uses_values_only.
+
+Example C04_nonvacuous :
+  let h := mk_entry (VStr "h") (VMap [mk_entry (VStr "a") (VSeq [VNum (NInt 2)]) false false]) false false in
+  let base := VMap [mk_entry (VStr "a") (VSeq [VNum (NInt 1)]) false false] in
+  let inline := VMap [mk_entry (VStr "a") (VSeq [VNum (NInt 2)]) false false] in
+  interp 40 [h] (VList [base; VStr "${h}"; base]) st0 = interp 40 [h] (VList [base; inline; base]) st0 /\
+  exists r s, interp 40 [h] (VList [base; VStr "${h}"; base]) st0 = Ok (r, s).
+Proof. cbn zeta. split; [vm_compute; reflexivity | eexists; eexists; vm_compute; reflexivity]. Qed.
